@@ -202,7 +202,7 @@ def _clip(v: Any) -> str:
 
 
 def plan(tier: str, seed: int, scale: float = 1.0) -> List[Dict[str, Any]]:
-    nshards, n = (32, 110) if tier == "quick" else (256, 130)
+    nshards, n = (32, 140) if tier == "quick" else (256, 130)
     return [{"seed": seed * 2741 + i, "n": max(10, int(n * scale)), "timeout": 900} for i in range(nshards)]
 
 
